@@ -323,6 +323,8 @@ def sig_of(kind, detail, case):
 def run(chk):
     from translator import gen_limits
     gen_limits.main([])          # Gen/Limits.lean: constants and limits read from the current source
+    chk.trusted.append("translator/gen_limits.py (constants / limits of the source -> Gen/Limits.lean: compiled probe + "
+                       "preprocessed function bodies at named anchors; tied to the model numerals by Props/Limits/C12.lean)")
     sb = gen_limits.values().get("optionSmallBuffer")
     SMALL_BUFFER_EDGE[:] = [sb - 1, sb, sb + 1] if sb is not None and 1 <= sb < 4096 else []
     problems = chk.prove(MODULES, AUDIT, want_leanchecker=(chk.tier == "thorough"))
